@@ -588,8 +588,8 @@ func (z *sess) judge(withCtrlO bool) {
 }
 
 func Run(r *mon.Run) {
-	r.Rule = "real -race binary on a pty with a fake shell over raw TLS sending numbered tokens; per session several mute cycles drawn from {continuous flood with Ctrl+O in the middle, burst, gaps of 1.5 s (must stay muted), gap above 2 s (must un-mute in between), Ctrl+O before any output}, with status lines (file requests) and a repeated Ctrl+O while muted, plus sessions without any Ctrl+O. All times come from one monotonic clock in the harness: s_i just before token i is sent, typed/announcement times as read from the pty. Verdicts are sound under load: a suppressed token with un-mute announced < 2 s after s_i; a token on the terminal before (Ctrl+O typed | previous suppressed token sent) + 2 s; a token sent after the un-muting announcement was read not displayed; a status line missing; any token missing in a session without Ctrl+O; no un-mute within 2 s + 20 s of calm while a canary request is answered. Engine stalled: the program runs with -ctrl-i <0.6-2 MB file>; (preview) Ctrl+J typed while muted must display its whole log message (header and contents); (stall) during a mute the harness stops draining the pty and types Ctrl+J so that the program's write of that message blocks holding the terminal's write lock, a token is sent 1.1-1.6 s after the previous one, the calm timer expires behind the blocked write, the harness drains again 2.3-3 s after the previous token: the suppressed token keeps the mute on for 2 s after it was sent (same rule as above, send and observation times only). distinct = distinct (cycle kinds, token count) sessions; all sessions are non-trivial (>= 4 tokens)"
-	r.Assumptions = []string{"real-time monitoring only: gaps within 0.4 s of the 2 s boundary are not generated", "observation time >= real time, send start <= arrival time"}
+	r.Rule = "real -race binary on a pty with a fake shell over raw TLS sending numbered tokens; per session several mute cycles drawn from {continuous flood with Ctrl+O in the middle, burst, gaps of 1.5 s (must stay muted), gap above 2 s (must un-mute in between), Ctrl+O before any output}, with status lines (file requests) and a repeated Ctrl+O while muted, plus sessions without any Ctrl+O. All times come from one monotonic clock in the harness: s_i just before token i is sent, typed/announcement times as read from the pty. Verdicts are sound under load: a suppressed token with un-mute announced < 2 s after s_i; a token on the terminal before (Ctrl+O typed | previous suppressed token sent) + 2 s; a token sent after the un-muting announcement was read not displayed; a status line missing; any token missing in a session without Ctrl+O; no un-mute within 2 s + 20 s of calm while a canary request is answered. Engine stalled: the program runs with -ctrl-i <0.6-2 MB file>; (preview) Ctrl+J typed while muted must display its whole log message (header and contents); (stall) during a mute the harness stops draining the pty and types Ctrl+J so that the program's write of that message blocks holding the terminal's write lock, a token is sent 1.1-1.6 s after the previous one, the calm timer expires behind the blocked write, the harness drains again 2.3-3 s after the previous token: the suppressed token keeps the mute on for 2 s after it was sent (same rule as above, send and observation times only). Engine backlog: Ctrl+O on a terminal that does not keep up with an UN-muted flood. The harness stops draining the pty (stall) or drains it in short openings (until something has been read, at most ~2 ms) every 30-70 ms (slow), a fake shell (over /io or /i+/o) sends 250-440 chunks of 0.3-1.8 kB so that the program's writes block and a backlog forms in its output queue (never more than the queue holds, so requests are always answered); at 3-6 points of the flood a status line is generated (file request or refused input connection, each requested only after the previous request was answered, i.e. after the program accepted the line for display); then Ctrl+O is typed, 1-2 more status lines are requested while the key cannot be handled yet, and the terminal drains again (at once, or in openings every 5-20 ms until the muting announcement). After the announcement a sentinel status line is requested; lines are displayed in the order accepted, so once the sentinel is on the terminal every status line requested earlier must be on the terminal too (logical, no clock) - whether it was generated before or after Ctrl+O; the mute must then end by itself and later output be displayed. Nothing is demanded of shell tokens sent before Ctrl+O (they were waiting behind the terminal when the mute began; either fate is allowed). Control sessions (nomute) do the same without Ctrl+O: every flood token and every status line must be displayed. Non-vacuity is measured: a status line answered before Ctrl+O was typed counts as queued at the mute when it is displayed after the muting announcement, and as behind shell output when a flood token sent before it was suppressed and it is displayed after every displayed flood token; floors on both, on the number of sessions with such a line, and on the number of flood tokens suppressed. distinct = distinct (cycle kinds, token count) sessions; all sessions are non-trivial (>= 4 tokens)"
+	r.Assumptions = []string{"real-time monitoring only: gaps within 0.4 s of the 2 s boundary are not generated", "observation time >= real time, send start <= arrival time", "backlog engine: a request is answered only after its handler has handed the status line to the operator channel, and that channel is first-in first-out (both true of hsrv/iobroker/opshell as written); the size of the backlog that really forms is not assumed but measured (floors)"}
 	bin, err := crs.Build(r.Work, "")
 	if err != nil {
 		r.Inconclusive("cannot build the binary: " + err.Error())
@@ -617,6 +617,19 @@ func Run(r *mon.Run) {
 	r.Floor("stalled_sessions", int64(nst))
 	r.Floor("stalls", int64(nst))
 	r.Floor("previews_displayed_while_muted", int64(nst))
+	nbl := r.N(6, 24)
+	mon.Parallel(nbl, nbl, func(i int) {
+		if r.Want("backlog", i) {
+			runBacklog(r, bin, i)
+		}
+	})
+	r.Floor("backlog_sessions", int64(nbl))
+	nblMute := int64(nbl - nbl/6) // sessions with Ctrl+O (index%6 != 3)
+	r.Floor("backlog_nomute_sessions", int64(nbl/6))
+	r.Floor("backlog_sessions_with_queued_status", (nblMute*3+4)/5) // a backlog with status lines in it really formed in most sessions
+	r.Floor("backlog_status_lines_behind_shell_output", 2*((nblMute*3+4)/5))
+	r.Floor("backlog_status_lines_queued_at_mute", (nblMute*3+4)/5)
+	r.Floor("backlog_tokens_suppressed", 60*nblMute)
 	nrp := r.N(4, 16)
 	var suspects []int
 	var smu sync.Mutex
